@@ -6,6 +6,8 @@ import GocoinV.Proofs.C19Defrag2
 namespace GocoinV.Proofs.C19
 open GocoinV GocoinV.Qdb GocoinV.QdbSpec
 
+variable {eg : Bool}
+
 /-- "the data file stays below 4 GiB if a sync or a defrag happened now" -/
 def SizeOK (db : DB) : Prop :=
   (checkDat db).lastPos + (syncPlan db.dataSeq db.index db.pending (checkDat db).lastPos).2.2.length < 2^32 ∧
@@ -28,7 +30,7 @@ theorem sync_inv (db : DB) (inv : DiskInv db) (hs : SizeOK db) :
     obtain ⟨L, hL, invL, absL, pL, oL, _, _, _, _⟩ := sync_logWritten db inv hp hs.1
     rw [hL]
     split
-    · have hwf : IndexWF L.index :=
+    · have hwf : IndexWF L.eager L.index :=
         ⟨invL.cached.2, invL.wf, invL.nodup, by rw [valsOf_of_absv L db absL]; exact hs.2⟩
       obtain ⟨a, b, c⟩ := defrag_inv L invL.cached invL.nv hwf
       exact ⟨a, b.trans absL, c, (defrag_cached L invL.cached).opts.trans oL⟩
@@ -76,7 +78,7 @@ theorem nodup_pendingAdd (p : List Key) (k : Key) (h : p.Nodup) : (pendingAdd p 
 theorem inv_change (db : DB) (inv : DiskInv db) (k : Key) (hk : k < 2^64) (idx' : List (Key × Rec))
     (e n m : Nat)
     (hother : ∀ j, j ≠ k → ilookup j idx' = ilookup j db.index)
-    (hc : AllCached idx') (hwf : ∀ kr ∈ idx', RecWF kr) (hnd : (Keys idx').Nodup)
+    (hc : AllCached db.eager idx') (hwf : ∀ kr ∈ idx', RecWF kr) (hnd : (Keys idx').Nodup)
     (hkeys : ∀ j ∈ Keys idx', j = k ∨ j ∈ Keys db.index) :
     DiskInv { db with index := idx', extra := e, need := n, maxSeq := m, pending := pendingAdd db.pending k } := by
   constructor
@@ -121,7 +123,7 @@ def noFlags (r : Rec) : Option Bytes × Nat × Nat × Nat := (r.data, r.seq, r.p
 
 theorem inv_flags (db : DB) (inv : DiskInv db) (idx' : List (Key × Rec))
     (hsame : ∀ j, (ilookup j idx').map noFlags = (ilookup j db.index).map noFlags)
-    (hc : AllCached idx') (hwf : ∀ kr ∈ idx', RecWF kr) (hkeys : Keys idx' = Keys db.index) :
+    (hc : AllCached db.eager idx') (hwf : ∀ kr ∈ idx', RecWF kr) (hkeys : Keys idx' = Keys db.index) :
     DiskInv { db with index := idx' } := by
   have hcore : ∀ j, (ilookup j idx').map core = (ilookup j db.index).map core := by
     intro j
@@ -226,10 +228,10 @@ theorem afterChange_inv (M : DB) (k : Key) (hM : DiskInv (addPending M k)) (hs :
   · exact hM
 
 theorem putExt_addPending_inv (db : DB) (inv : DiskInv db) (k : Key) (v : Bytes) (f : Nat) (hk : k < 2^64)
-    (hv : v.length < 2^32) (hf : f < 2^32) (hnc : hasFlag f NO_CACHE = false) :
+    (hv : v.length < 2^32) (hf : f < 2^32) (hnc : hasFlag f (ncOf db.eager) = false) :
     DiskInv (addPending (memput db k (newRec v f)) k) := by
   obtain ⟨e, n, m, hmp⟩ := memput_same db k (newRec v f)
-  have hrec : RecCached (newRec v f) ∧ RecWF (k, newRec v f) := by
+  have hrec : RecCached db.eager (newRec v f) ∧ RecWF (k, newRec v f) := by
     refine ⟨⟨rfl, hnc⟩, hk, hf, ?_⟩
     show u32 v.length = v.length
     exact Nat.mod_eq_of_lt hv
@@ -269,12 +271,12 @@ theorem del_addPending_inv (db : DB) (inv : DiskInv db) (k : Key) (hk : k < 2^64
     (fun j hj => Or.inr (keys_ierase_sub k db.index j hj))
 
 theorem putExt_inv (db : DB) (inv : DiskInv db) (k : Key) (v : Bytes) (f : Nat) (hk : k < 2^64)
-    (hv : v.length < 2^32) (hf : f < 2^32) (hnc : hasFlag f NO_CACHE = false)
+    (hv : v.length < 2^32) (hf : f < 2^32) (hnc : hasFlag f (ncOf db.eager) = false)
     (hs : SizeOK (addPending (memput db k (newRec v f)) k)) : DiskInv (putExt db k v f) := by
   unfold putExt
   rw [if_neg (notFailed inv.cached)]
   obtain ⟨e, n, m, hmp⟩ := memput_same db k (newRec v f)
-  have hrec : RecCached (newRec v f) ∧ RecWF (k, newRec v f) := by
+  have hrec : RecCached db.eager (newRec v f) ∧ RecWF (k, newRec v f) := by
     refine ⟨⟨rfl, hnc⟩, hk, hf, ?_⟩
     show u32 v.length = v.length
     exact Nat.mod_eq_of_lt hv
@@ -334,7 +336,7 @@ theorem get_inv (db : DB) (inv : DiskInv db) (k : Key) : DiskInv (Qdb.get db k).
       by_cases hj : k = j
       · subst hj; simp [hl, noFlags]
       · simp [hj]
-    · exact allCached_iset inv.cached.2 k _ ⟨hr.1, applyBF_keeps_noNC _ _ hr.2 (by decide : hasFlag YES_CACHE NO_CACHE = false)⟩
+    · exact allCached_iset inv.cached.2 k _ ⟨hr.1, applyBF_keeps _ _ _ hr.2 (yesCache_ok _)⟩
     · intro kr hkr
       rcases mem_iset k _ db.index kr hkr with h | h
       · have hk := inv.wf (k, r) (ilookup_key_pair k r db.index hl)
@@ -343,7 +345,7 @@ theorem get_inv (db : DB) (inv : DiskInv db) (k : Key) : DiskInv (Qdb.get db k).
     · rw [keys_iset]
       simp [ilookup_key_mem k r db.index hl]
 
-theorem applyFlags_inv (db : DB) (inv : DiskInv db) (k : Key) (fl : Nat) (hf : hasFlag fl NO_CACHE = false) :
+theorem applyFlags_inv (db : DB) (inv : DiskInv db) (k : Key) (fl : Nat) (hf : hasFlag fl (ncOf db.eager) = false) :
     DiskInv (applyFlags db k fl) := by
   unfold applyFlags
   rw [if_neg (notFailed inv.cached)]
@@ -357,7 +359,7 @@ theorem applyFlags_inv (db : DB) (inv : DiskInv db) (k : Key) (fl : Nat) (hf : h
       by_cases hj : k = j
       · subst hj; simp [hl, noFlags]
       · simp [hj]
-    · exact allCached_iset inv.cached.2 k _ ⟨hr.1, applyBF_keeps_noNC _ _ hr.2 hf⟩
+    · exact allCached_iset inv.cached.2 k _ ⟨hr.1, applyBF_keeps _ _ _ hr.2 hf⟩
     · intro kr hkr
       rcases mem_iset k _ db.index kr hkr with h | h
       · have hk := inv.wf (k, r) (ilookup_key_pair k r db.index hl)
@@ -375,7 +377,7 @@ theorem browseRec_eq (w : List (Key × Nat)) (kr : Key × Rec) :
   simp only [Bool.not_false, Bool.true_and]
   split <;> rfl
 
-theorem browse_inv (db : DB) (inv : DiskInv db) (w : List (Key × Nat)) (hw : WalkOK w) :
+theorem browse_inv (db : DB) (inv : DiskInv db) (w : List (Key × Nat)) (hw : WalkOK db.eager w) :
     DiskInv (browse db w).1 := by
   obtain ⟨h1, _⟩ := browseGen_cached false db w inv.cached hw
   have hc := (browse_cached db w inv.cached hw).1
@@ -407,12 +409,12 @@ theorem browse_inv (db : DB) (inv : DiskInv db) (w : List (Key × Nat)) (hw : Wa
     rw [List.map_map]
     rfl
 
-theorem step_inv (db : DB) (inv : DiskInv db) (op : Op) (ok : OpOK op) (fits : OpFits db op) :
+theorem step_inv (db : DB) (inv : DiskInv db) (op : Op) (ok : OpOK db.eager op) (fits : OpFits db op) :
     DiskInv (step db op) := by
   cases op with
   | put k v =>
     obtain ⟨a, b, c⟩ := fits
-    exact putExt_inv db inv k v 0 a b (by decide) (by decide) c
+    exact putExt_inv db inv k v 0 a b (by decide) (zeroFlags_ok _) c
   | putExt k v f =>
     obtain ⟨a, b, c, d⟩ := fits
     exact putExt_inv db inv k v f a b c ok d
@@ -448,17 +450,18 @@ def RunFits : DB → List Op → Prop
   | _, [] => True
   | db, op :: t => OpFits db op ∧ RunFits (step db op) t
 
-theorem run_inv (ops : List Op) (db : DB) (inv : DiskInv db) (ok : ∀ op ∈ ops, OpOK op) (fits : RunFits db ops) :
+theorem run_inv (ops : List Op) (db : DB) (inv : DiskInv db) (ok : ∀ op ∈ ops, OpOK db.eager op) (fits : RunFits db ops) :
     DiskInv (run db ops) := by
   induction ops generalizing db with
   | nil => exact inv
   | cons op t ih =>
     exact ih (step db op) (step_inv db inv op (ok op List.mem_cons_self) fits.1)
-      (fun o ho => ok o (List.mem_cons_of_mem _ ho)) fits.2
+      (fun o ho => by rw [step_eager db op inv.cached (ok op List.mem_cons_self)]; exact ok o (List.mem_cons_of_mem _ ho))
+      fits.2
 
 /-- the fresh non-volatile store on an empty directory satisfies the invariant -/
-theorem fresh_inv (load : Bool) (opts : Opts) : DiskInv (openDB {} false load opts) := by
-  have e : openDB {} false load opts = { fs := {}, volatile := false, opts := opts, dataSeq := 1 } := by
+theorem fresh_inv (load : Bool) (opts : Opts) : DiskInv (openDB {} false load opts eg) := by
+  have e : openDB {} false load opts eg = { fs := {}, volatile := false, opts := opts, dataSeq := 1, eager := eg } := by
     cases load <;> rfl
   rw [e]
   constructor
